@@ -45,7 +45,7 @@ func TestC14Release(t *testing.T) {
 	if thorough() {
 		sizes = []int{10, 100, 1000}
 	}
-	col := evid.New("C14", "create-use-close-cycles", fmt.Sprintf("N in %v create/(nest)/use/close cycles against one long-lived provider (and optionally one long-lived parent scope), with contexts the caller never cancels (nil, Background, a child of a long-lived cancellable context, a context of a foreign type that forces context.WithCancel to start a goroutine), instances that hold on to their scope/context/dependencies, and - when the configuration has initializer functions - a failing initializer (error or panic) at a rotating position in a generated share of the cycles; oracle after the cycles, with provider and parent still alive: goroutine count back at the pre-cycle baseline (bounded wait), every closed scope's context cancelled, weak handles of every closed scope object and of every instance created in the cycles dead after GC; non-trivial = N>=10, nested scopes or a failing initializer", sizes))
+	col := evid.New("C14", "create-use-close-cycles", fmt.Sprintf("N in %v create/(nest)/use/close cycles against one long-lived provider (and optionally one long-lived parent scope), with contexts the caller never cancels (nil, Background, a child of a long-lived cancellable context, a context of a foreign type that forces context.WithCancel to start a goroutine), instances that hold on to their scope/context/dependencies (and, in a third of the cases, open a scope of their own below the Scope they are handed - initializer functions do so while their scope is still being created), and - when the configuration has initializer functions - a failing initializer (error or panic) at a rotating position in a generated share of the cycles; oracle after the cycles, with provider and parent still alive: goroutine count back at the pre-cycle baseline (bounded wait), every closed scope's context cancelled, weak handles of every closed scope object and of every instance created in the cycles dead after GC; non-trivial = N>=10, nested scopes or a failing initializer", sizes))
 	defer col.Flush()
 	rapid.Check(t, func(rt *rapid.T) {
 		o := kit.FullOpts()
@@ -110,6 +110,32 @@ func TestC14Release(t *testing.T) {
 				instHandles = append(instHandles, kit.WeakOf(obj))
 			}
 			mu.Unlock()
+		}
+		// in a third of the cases user code that is handed a Scope opens a scope of its own below it
+		// (context.Background(): nothing but the enclosing scope's Close will ever close it) - an
+		// initializer function does so while its scope is still being created, and a later
+		// initializer of that creation may fail
+		nestInside := rapid.IntRange(0, 2).Draw(rt, "nestInside") == 0
+		var nesting atomic.Int32
+		var nestedHandles []func() bool
+		nestedMade := 0
+		if nestInside {
+			w.OnBuiltin = func(v any) {
+				sc, ok := v.(godi.Scope)
+				mu.Lock()
+				on := collecting
+				mu.Unlock()
+				if !ok || !on || !nesting.CompareAndSwap(0, 1) {
+					return
+				}
+				defer nesting.Store(0)
+				if child, err := sc.CreateScope(context.Background()); err == nil {
+					mu.Lock()
+					nestedHandles = append(nestedHandles, godi.VerifWeakScope(child))
+					nestedMade++
+					mu.Unlock()
+				}
+			}
 		}
 		coll := godi.NewCollection()
 		if err := w.RegisterAll(coll, nil); err != nil {
@@ -301,8 +327,12 @@ func TestC14Release(t *testing.T) {
 		mu.Lock()
 		collecting = false
 		handles := append([]func() bool(nil), instHandles...)
+		scopeHandles = append(scopeHandles, nestedHandles...)
 		mu.Unlock()
 		labels := []string{fmt.Sprintf("N=%d", N), fmt.Sprintf("nest=%d", nest)}
+		if nestedMade > 0 {
+			labels = append(labels, "scopes-opened-by-user-code-inside")
+		}
 		if failedCreates > 0 {
 			labels = append(labels, "failed-creations")
 		}
@@ -318,7 +348,7 @@ func TestC14Release(t *testing.T) {
 		if closeFails {
 			labels = append(labels, "failing-Close-methods")
 		}
-		canon := fmt.Sprintf("%s || N=%d nest=%d ctx=%v gets=%v faultEvery=%d parentScope=%v childFirst=%v", cfg, N, nest, ctxKinds, getIDs, faultEvery, useParentScope, closeChildFirst)
+		canon := fmt.Sprintf("%s || N=%d nest=%d ctx=%v gets=%v faultEvery=%d parentScope=%v childFirst=%v nestInside=%v", cfg, N, nest, ctxKinds, getIDs, faultEvery, useParentScope, closeChildFirst, nestInside)
 		col.Case(N >= 10 || nest > 0 || failedCreates > 0, canon, canon, labels...)
 		if f == nil {
 			if !waitFor(func() bool { return runtime.NumGoroutine() <= base }, 5*time.Second) {
